@@ -506,8 +506,16 @@ where
         if let Some(ref mut data) = self.writing {
             while data.has_remaining() {
                 let stream = Pin::new(&mut self.stream);
-                let written = ready!(stream.poll_write(cx, data.chunk()))
-                    .map_err(convert_write_error_to_stream_error)?;
+                let written = match ready!(stream.poll_write(cx, data.chunk())) {
+                    Ok(written) => written,
+                    Err(error) => {
+                        // The stream can send nothing any more: the buffer is given up, so that a
+                        // later write on this stream fails the same way instead of looking like a
+                        // misuse of the send half by h3
+                        self.writing = None;
+                        return Poll::Ready(Err(convert_write_error_to_stream_error(error)));
+                    }
+                };
                 data.advance(written);
             }
         }
